@@ -34,6 +34,8 @@ func init() {
 		}
 	}
 	r9Wrap("C19", r9Panics)
+	r9Wrap("C15", r9Versions)
+	r9Wrap("C09", r9Versions)
 	r9Wrap("C19", c19K)
 	replayers["C19K"] = func(c *ctx, in []string) { c19Reexec(); c19K(c) }
 	r9Wrap("C04", r9BigRX)
@@ -509,4 +511,17 @@ func c19K(c *ctx) {
 	}
 	wg.Wait()
 	c.emit("C19K %s -> %d %d", b2s(raceEnabled), wrong, c19Races()-races0)
+}
+
+// r9-C15b: Sec-WebSocket-Version values of every short shape (empty, blank, one character, "13" with blanks, longer
+// numerals) through the upgrader: a value or an error, never a panic; and judged by the C09 model
+func r9Versions(c *ctx) {
+	for _, v := range []string{"", " ", "\t", "1", "3", "13", " 13", "13 ", "\t13\t", "1 3", "013", "13.0", "14", "12", "8", "130", "1313", "13, 8", "8, 13", "x", "-13", "+13", "١٣"} {
+		req := "GET /ws HTTP/1.1\r\nHost: example.com\r\nUpgrade: websocket\r\nConnection: Upgrade\r\nSec-WebSocket-Key: dGhlIHNhbXBsZSBub25jZQ==\r\nSec-WebSocket-Version:" + v + "\r\n\r\n"
+		fz(c, "up", []byte(req))
+		u09(c, "up", 0, 0, "eof", [][]byte{[]byte(req)}, ucfg{})
+		req2 := strings.Replace(req, "Sec-WebSocket-Version:", "Sec-WebSocket-Version: ", 1)
+		fz(c, "up", []byte(req2))
+		u09(c, "up", 0, 0, "eof", [][]byte{[]byte(req2)}, ucfg{})
+	}
 }
